@@ -35,6 +35,26 @@ Theorem C21_zone_selection_sized : forall secs D, NoDup D ->
 Proof. exact select_spec. Qed.
 Print Assumptions C21_zone_selection_sized.
 
+(* Sized, whole shard: whenever getTenantShard succeeds (every node owning a
+   section, non-negative shard size, enough random draws supplied), the shard
+   consists of pairwise distinct valid nodes, contains EXACTLY `take` nodes of
+   every zone — take = ceil(size / zones), or the size itself in the single
+   pseudo-zone when zone awareness is disabled — hence zones * take nodes in
+   total, and at least rf of them. *)
+Theorem C21_shard_sized : forall eps rf dflt disabled ovs globm tenant rand nodes,
+  Forall (fun e => snd e <> []) eps -> eps <> [] ->
+  let zs := zones_of disabled [] eps in
+  let ss := shard_size ovs globm tenant dflt in
+  let take := if disabled then ss else per_zone ss (length zs) in
+  (0 <= ss)%Z ->
+  (forall z, In z zs -> Z.to_nat take <= length (lookup_pos rand z)) ->
+  tenant_shard eps rf dflt disabled ovs globm tenant rand = SOk nodes ->
+  NoDup nodes /\ (forall e, In e nodes -> e < length eps) /\
+  (forall z, In z zs -> Z.of_nat (count_zone disabled eps nodes z) = take) /\
+  Z.of_nat (length nodes) = (Z.of_nat (length zs) * take)%Z /\ rf <= length nodes.
+Proof. exact tenant_shard_sized. Qed.
+Print Assumptions C21_shard_sized.
+
 (* The configured size: the source (as read on this run) implements the
    documented override semantics — first matching override wins, an unset
    matcher type means exact, glob overrides use filepath.Match, malformed
